@@ -69,6 +69,13 @@ func TestVerifDriver(t *testing.T) {
 		}
 		w := strings.Fields(line)
 		res := "bad-op"
+		// an operation still running after 240 s is wedged: say so and stop instead of sitting out
+		// the test timeout (the main goroutine is stuck, so nobody else writes to `out`)
+		wedged := time.AfterFunc(240*time.Second, func() {
+			fmt.Fprintln(out, "hang")
+			out.Flush()
+			os.Exit(3)
+		})
 		if len(w) >= 2 && w[0] == "cb" {
 			switch w[1] {
 			case "new":
@@ -286,6 +293,7 @@ func TestVerifDriver(t *testing.T) {
 				res = "changes=" + strings.Join(changes, ",")
 			}
 		}
+		wedged.Stop()
 		fmt.Fprintln(out, res)
 	}
 }
